@@ -3,7 +3,8 @@
 Case (plain JSON), common fields
     {"fam": "stmt" | "tset" | "expr" | "pipe" | "raw",
      "cls": "plain" | "sandbox" | "immutable" | "native",   environment class of BOTH environments of the pair
-     "auto": bool,                                           autoescape option of both
+     "auto": bool | "byname",                                autoescape option of both ("byname": a callable, on for
+                                                             the templates base / lib / inc, off for main)
      "wrap": bool,   async side: callables of the data become coroutine functions, marked iterables async generators
      ...}
 family fields
@@ -250,8 +251,18 @@ def _setup():
     return _state
 
 
+BYNAME_TRUE = ("base", "lib", "inc")
+
+
+def _autoescape_by_name(name):
+    """A select_autoescape-like callable: on for the library / base templates, off for 'main' and string templates."""
+    return name in BYNAME_TRUE
+
+
 def _make_env(cls, is_async, auto, templates, globs=None):
     st = _setup()
+    if auto == "byname":
+        auto = _autoescape_by_name
     env = st["classes"][cls](loader=st["jinja2"].DictLoader(templates), enable_async=is_async, autoescape=auto,
                              extensions=["jinja2.ext.loopcontrols"])
     env.filters["afilt"] = st["afilt"]
@@ -353,12 +364,14 @@ class _Plan:
 
 
 def _run_plan(case, plan):
-    cls, auto, wrap = case.get("cls", "plain"), bool(case.get("auto", False)), bool(case.get("wrap", False))
+    cls, auto, wrap = case.get("cls", "plain"), case.get("auto", False), bool(case.get("wrap", False))
+    auto = "byname" if auto == "byname" else bool(auto)
     native = cls == "native"
     senv = _make_env(cls, False, auto, plan.templates, plan.globs)
     aenv = _make_env(cls, True, auto, plan.templates, plan.globs)
     labels = set(plan.labels)
-    labels.update(("fam_" + case["fam"], "cls_" + cls, "auto" if auto else "noauto", "wrap" if wrap else "nowrap"))
+    labels.update(("fam_" + case["fam"], "cls_" + cls, "auto_byname" if auto == "byname" else ("auto" if auto else "noauto"),
+                   "wrap" if wrap else "nowrap"))
     compared = 0
     for name in plan.prechecks:
         for mk in plan.makers:
@@ -732,12 +745,13 @@ SGEN_OUT = ("unique", "slice", "batch", "reverse")
 SEQ_OUT = ("list", "sort", "groupby")
 SYNC_ONLY_STAGES = ("sort", "reverse", "batch")
 SYNC_ONLY_SINKS = ("length", "min", "max", "last", "tojson", "in", "star", "unpack", "iterable", "print", "string", "sortjoin")
-AWARE_SINKS = ("join", "list", "first", "sum", "for", "twice", "afilt", "atest", "ucall")
+AWARE_SINKS = ("join", "list", "first", "sum", "for", "twice", "afilt", "atest", "ucall", "alias")
 ADDRESS_SINKS = ("print", "string")
-EMBEDDINGS = ("plain", "set", "setblock", "filterblock", "macroarg", "callblock", "if", "macrobody")
+EMBEDDINGS = ("plain", "set", "setblock", "filterblock", "macroarg", "callblock", "if", "macrobody", "selfblock", "superblock")
 N_FOR_VARIANTS = 11
 
 LIBS = {
+    "base": "<{% block pb %}B&<{{ x }}{% endblock %}>",
     "inc": "[{{ x }}{{ loop.index if loop is defined }}]",
     "lib": "{% macro lm(v) %}<{{ v }}|{{ x }}|{{ tg }}{{ caller() if caller is defined }}>{% endmacro %}{% set libvar = 'L' ~ x ~ tg %}",
 }
@@ -888,6 +902,10 @@ def pipe_source(p):
         E = "ufn(" + P + "|first)"   # ufn.unsafe_callable / alters_data: SecurityError in both sandboxed environments
     elif sink == "unpack":
         stmt = "{% set a, b = " + P + " %}{{ a }}|{{ b }}"
+    elif sink == "alias":
+        # the copy made by |list is changed through a method call; the original and the identity test are printed
+        stmt = ("{% set c = " + P + "|list %}{% set _ = c.append(9) %}{{ c }}|{{ xs }}|{{ c is sameas xs }}"
+                "{% set _ = c.pop(0) if c %}{{ xs|list|length }}")
     elif sink == "twice":
         stmt = "{% set g = " + P + " %}{{ g|list }}|{{ g|list }}|{{ g|first|default('none') }}"
     elif sink == "for":
@@ -911,6 +929,15 @@ def pipe_source(p):
         return "{% macro mc() %}<{{ caller() }}>{% endmacro %}{% call mc() %}" + stmt + "{% endcall %}"
     if emb == "macrobody":
         return "{% macro mb(xs) %}" + stmt + "{% endmacro %}{{ mb(xs) }}|{{ mb([]) }}"
+    if emb in ("selfblock", "superblock"):
+        # {{ self.block() }} / {{ super() }} where the effective autoescape is set by an override (p["ae"]): the block's
+        # text must be marked safe (or not) according to the mode in effect, not to the environment default
+        ae = "true" if p.get("ae") else "false"
+        if emb == "selfblock":
+            return ("{% block pb %}" + stmt + "{% endblock %}{% autoescape " + ae + " %}[{{ self.pb() }}|{{ self.pb()|e }}|"
+                    "{{ self.pb()|length }}]{% endautoescape %}|{{ self.pb()|e }}")
+        return ("{% extends 'base' %}{% block pb %}{% autoescape " + ae + " %}[{{ super() }}|{{ super()|e }}|{{ super()|length }}]"
+                "{% endautoescape %}{{ super()|e }}" + stmt + "{% endblock %}")
     return stmt
 
 
@@ -969,6 +996,10 @@ def _plan_pipe(case, allow_known=False):
             templates[pre] = "{% set r = " + _src_src(p["src"]) + "".join(_stage_src(s) for s in p["stages"][:i]) + "|list %}"
             prechecks.append(pre)
     labels = {"src_" + p["src"][0], "sink_" + p["sink"][0], "emb_" + p.get("emb", "plain")}
+    if p.get("emb") in ("selfblock", "superblock") and bool(p.get("ae")) != (case.get("auto") is True):
+        labels.add("blockref_under_other_autoescape")
+    if p["sink"][0] == "alias" and not p["stages"] and p["src"][0] == "var":
+        labels.add("alias_of_plain_list")
     if p["sink"][0] == "for":
         labels.add("for_v%d" % p["sink"][1]["v"])
     kind = "seq"
@@ -1047,6 +1078,8 @@ def _pipe_cases():
             return [pick(pool) for _ in range(draw(st.integers(lo, hi)))]
 
         auto = chance(35)
+        if chance(12):
+            auto = "byname"
 
         def items(ty):
             if ty == "int":
@@ -1219,7 +1252,7 @@ def _pipe_cases():
             ty = nty
 
         def sink(t):
-            common = ["join", "join", "list", "list", "first", "for", "for", "for", "for", "twice", "afilt", "atest", "ucall"]
+            common = ["join", "join", "list", "list", "first", "for", "for", "for", "for", "twice", "afilt", "atest", "ucall", "alias"]
             synconly = ["length", "min", "max", "last", "tojson", "in", "star", "unpack", "iterable", "print", "string", "sortjoin"]
             if t == "int":
                 common += ["sum", "sum", "sum"]
@@ -1261,10 +1294,15 @@ def _pipe_cases():
                 break
         else:
             sk_ = ["list", {}]
-        emb = pick(["plain", "plain", "plain", "plain", "set", "setblock", "filterblock", "macroarg", "callblock", "if", "macrobody"])
+        emb = pick(["plain", "plain", "plain", "plain", "set", "setblock", "filterblock", "macroarg", "callblock", "if", "macrobody",
+                    "selfblock", "superblock"])
         if emb == "macrobody" and src[0] not in ("var", "gen", "cofn", "cogen"):
             emb = "plain"
+        if sk_[0] == "alias" and chance(60):
+            src, stages = ["var", None], []    # |list of the list itself: the copy must not alias it
         p = {"src": src, "stages": stages, "sink": sk_, "emb": emb}
+        if emb in ("selfblock", "superblock"):
+            p["ae"] = chance(50)
         return {"fam": "pipe", "cls": pick(CLASSES + ("plain", "plain")), "auto": auto, "wrap": wrap, "p": p, "data": {"xs": xs}}
 
     return cases()
@@ -1373,6 +1411,9 @@ def floors(total, tier):
     for sink in ("join", "list", "first", "sum", "for"):
         if lab.get("lazy_into_" + sink, 0) < 20:
             msgs.append("lazy filter result into %s < 20 times" % sink)
+    for lab_ in ("blockref_under_other_autoescape", "alias_of_plain_list", "auto_byname"):
+        if lab.get(lab_, 0) < 30:
+            msgs.append("%s < 30 times" % lab_)
     for v in range(N_FOR_VARIANTS):
         if lab.get("for_v%d" % v, 0) < 10:
             msgs.append("for-loop sink variant %d < 10 times" % v)
